@@ -2004,6 +2004,8 @@ Plan gen_C14(std::uint64_t seed, int tier) {
             auto& n = pool[pi];
             if (n == "dbg" || n == "rel")
                 g.ev_handler(pi, g.r.chance(0.5) ? HM_CALL_ERROR : HM_THROW);
+            else if (n != "thr")
+                g.ev_handler(pi, HM_THROW); // installs the same handler again
         }
     }
     return g.p;
